@@ -594,6 +594,54 @@ static void run_case (FILE *out, char *desc) {
       fflush (out);
     }
   }
+  if (want_exec && getenv ("C11_POSTLOAD") != NULL) {
+    /* the loaded (simplified, label-renumbered, linked) context once more through both writers/readers */
+    static char *pt0, *pt1, *pt2;
+    static size_t pn0, pn1, pn2;
+    static buf_t pw;
+    static MIR_context_t e, f;
+    stage = "postload-write";
+    if (setjmp (err_jmp)) {
+      fprintf (out, "|PW=ERR:%s", err_msg);
+    } else {
+      pt0 = text_of (a, &pn0);
+      memset (&wbuf, 0, sizeof (wbuf));
+      MIR_write_with_func (a, writer);
+      pw = wbuf;
+      fprintf (out, "|PW=ok");
+      fflush (out);
+      stage = "postload-read";
+      e = MIR_init ();
+      MIR_set_error_func (e, err_func);
+      if (setjmp (err_jmp)) {
+        fprintf (out, "|PR=ERR:%s", err_msg);
+      } else {
+        rbuf = &pw;
+        rpos = 0;
+        MIR_read_with_func (e, reader);
+        fprintf (out, "|PR=ok");
+        pt1 = text_of (e, &pn1);
+        emit_text (out, "PT1", pt1, pn1, pt0, pn0);
+        fflush (out);
+        exec_ctx (out, "PX1", e);
+      }
+      fflush (out);
+      stage = "postload-scan";
+      f = MIR_init ();
+      MIR_set_error_func (f, err_func);
+      if (setjmp (err_jmp)) {
+        fprintf (out, "|PS=ERR:%s", err_msg);
+      } else {
+        MIR_scan_string (f, pt0);
+        fprintf (out, "|PS=ok");
+        pt2 = text_of (f, &pn2);
+        emit_text (out, "PT2", pt2, pn2, pt0, pn0);
+        fflush (out);
+        exec_ctx (out, "PX2", f);
+      }
+    }
+    fflush (out);
+  }
   stage = "probe";
   probe_fresh (out, "0", a);
   if (rb_ok) probe_fresh (out, "1", b);
